@@ -131,6 +131,24 @@ func c13(c *Ctx) {
 			}
 			r.Check(ok && n >= 1, "ERR", fkey(fn)+"/validator/"+v, c.Pos(fn.Pos()), "called and its result decides the admission", sprintf("validator %s: calls=%d, result reaches the aggregated error (and runs on Update where required)=%v", v, n, ok))
 		}
+		r.Rule("PATH(always validated): in clusterColocationProfileValidatingPod no return that may allow the request is reachable without each of validateRequiredQoSClass, both forbidSpecialQoSClassAndPriorityClass calls and validateResources having run (on Create and on Update alike)")
+		ordv := map[string]int{}
+		for _, cl := range an.Calls(fn, false) {
+			sn := an.ShortCallee(cl.Common())
+			if sn != "validateRequiredQoSClass" && sn != "forbidSpecialQoSClassAndPriorityClass" && sn != "validateResources" {
+				continue
+			}
+			ordv[sn]++
+			target := cl
+			reach := an.Explore(fn, nil, nil, func(in ssa.Instruction) bool { return in == ssa.Instruction(target) })
+			bad := ""
+			for _, ret := range reach.Returns() {
+				if reach.EvalAt(ret.Results[0], ret) != an.False {
+					bad = c.InstrPos(ret)
+				}
+			}
+			r.Check(bad == "", "PATH", sprintf("%s/always-runs/%s#%d", fkey(fn), sn, ordv[sn]), c.InstrPos(cl), "runs before any allowing return", "the request can be allowed (return at "+bad+") without "+sn+" having run: e.g. an update that keeps QoS and priority class but changes resources or labels is no longer checked")
+		}
 		if agg != nil {
 			// allowed=false iff err != nil: explore with err non-nil
 			reach := an.Explore(fn, an.After(agg), an.Facts{agg.Value(): an.NonNil}, nil)
@@ -221,8 +239,56 @@ func c13(c *Ctx) {
 		r.Check(okAll, "CONST", "apis/extension/priority-ranges", "", sprintf("ranges ordered and disjoint: %v", seq), sprintf("priority value ranges overlap or are out of order: %v", seq))
 	}
 
+	c13ranges(c)
 	c13mutate(c)
 	c13shape(c)
+}
+
+// c13ranges: the value->class mapping tests each class against its own bounds.
+func c13ranges(c *Ctx) {
+	r := c.R
+	r.Rule("PATH(ranges): in getPriorityClassByPriority the return of class K (prod, mid, batch, free) is dominated by exactly p >= Priority<K>ValueMin and p <= Priority<K>ValueMax (both bounds of the same class; values between two ranges map to no class)")
+	fn := c.Fn("apis/extension", "", "getPriorityClassByPriority")
+	if fn == nil {
+		return
+	}
+	classes := map[string]string{"koord-prod": "Prod", "koord-mid": "Mid", "koord-batch": "Batch", "koord-free": "Free"}
+	found := map[string]bool{}
+	for _, b := range fn.Blocks {
+		ret, ok := b.Instrs[len(b.Instrs)-1].(*ssa.Return)
+		if !ok {
+			continue
+		}
+		name, isC := constString(ret.Results[0])
+		k, tracked := classes[name]
+		if !isC || !tracked {
+			continue
+		}
+		found[name] = true
+		lo, hi := false, false
+		var other []string
+		for _, g := range an.Guards(ret) {
+			bo, ok := g.Cond.(*ssa.BinOp)
+			if !ok {
+				continue
+			}
+			y := an.Path(bo.Y)
+			switch {
+			case bo.Op == token.GEQ && g.Truth && strings.HasSuffix(y, "Priority"+k+"ValueMin"):
+				lo = true
+			case bo.Op == token.LEQ && g.Truth && strings.HasSuffix(y, "Priority"+k+"ValueMax"):
+				hi = true
+			case g.Truth && strings.Contains(y, "Priority") && strings.Contains(y, "Value"):
+				other = append(other, bo.Op.String()+" "+y)
+			}
+		}
+		r.Check(lo && hi && len(other) == 0, "PATH", fkey(fn)+"/range/"+name, c.InstrPos(ret), "guarded by its own Min and Max", sprintf("class %s is returned under: own lower bound=%v, own upper bound=%v, foreign bounds=%v - values outside the published %s range are classified as %s", name, lo, hi, other, k, name))
+	}
+	for name := range classes {
+		if !found[name] {
+			r.Unknown("PATH", fkey(fn)+"/range/"+name, c.Pos(fn.Pos()), "no return of this class constant found")
+		}
+	}
 }
 
 func c13mutate(c *Ctx) {
@@ -249,6 +315,19 @@ func c13mutate(c *Ctx) {
 		} else {
 			reach := an.Explore(fn, an.After(store), nil, func(in ssa.Instruction) bool { return in == ssa.Instruction(del) })
 			paired := len(reach.Returns()) == 0 || instrBefore(del, store)
+			// every erase of the native entry is paired with the store of the extended entry
+			for _, cl := range an.Calls(fn, false) {
+				if bi, ok := cl.Common().Value.(*ssa.Builtin); !ok || bi.Name() != "delete" {
+					continue
+				}
+				if instrBefore(store, cl) {
+					continue
+				}
+				rs := an.Explore(fn, an.After(cl), nil, func(in ssa.Instruction) bool { return in == ssa.Instruction(store) })
+				if len(rs.Returns()) > 0 {
+					paired = false
+				}
+			}
 			sameMap := store.Map == del.Common().Args[0] && del.Common().Args[1] == ssa.Value(fn.Params[2])
 			present := false
 			for _, g := range an.Guards(store) {
